@@ -1,2 +1,17 @@
-(** C03 placeholder *)
-From GoSh Require Import Base.Bytes.
+(** C03 — Ill-formed programs are rejected with a located syntax error.
+    Token level (see C02 for the model and its tie to the code): what the parser rejects is not a
+    sentence of the grammar, and whatever it accepts is one, with every token accounted for. *)
+From GoSh Require Import Base.Bytes Parse.Skel Parse.Grammar Parse.GrammarSpec Parse.GrammarSound Parse.GrammarComplete.
+
+(** Nothing ill-formed is accepted: acceptance implies a derivation that uses all the tokens received,
+    none dropped, none re-associated (the skeleton is the derivation's). *)
+Theorem C03_accepted_is_a_sentence :
+  forall ts hs sk rest hs', parse_tokens ts hs = POk sk rest hs' -> rest = [] /\ G_program ts hs sk hs'.
+Proof. exact parse_tokens_sound. Qed.
+Print Assumptions C03_accepted_is_a_sentence.
+
+(** A syntax error is reported only for token sequences that are not sentences. *)
+Theorem C03_rejected_is_not_a_sentence :
+  forall ts hs e, parse_tokens ts hs = PErr e -> forall sk hs', ~ G_program ts hs sk hs'.
+Proof. exact parse_tokens_rejects. Qed.
+Print Assumptions C03_rejected_is_not_a_sentence.
